@@ -146,6 +146,10 @@ def main():
             import c14_battery
             pr = c14_battery.run_case(tuple((tuple(r), k) for r, k in REPLAY["tree"]), REPLAY["new"], REPLAY["old"], "rel", "str")
             replay_result(bool(pr), pr[:2])
+        if REPLAY is not None and REPLAY.get("kind") == "e2e":
+            import c03_e2e
+            pr = c03_e2e.run_op(REPLAY["op"], REPLAY["recursive"])
+            replay_result(bool(pr), pr[:2])
         if REPLAY is not None and REPLAY.get("kind") == "phantom":
             pr = phantom()
             replay_result(bool(pr), pr[:2])
@@ -169,6 +173,14 @@ def main():
                     if pr:
                         bat.fail(f"{WHICH}.translation", pr[0], {"rootkind": rootkind, "recursive": recursive, "full": full, "shape": shape, "kind": kind, "isdir": isdir, "at_root": at_root, "variant": variant, "problems": pr[:2]}, "InotifyEmitter.queue_events")
         if WHICH == "C03":
+            # one operation at a time, end to end through the real emitter and kernel (+ probes of every directory afterwards)
+            import c03_e2e
+            for name in c03_e2e.names():
+                for recursive in (True, False):
+                    bat.case(("e2e", name, recursive))
+                    pr = c03_e2e.run_op(name, recursive)
+                    if pr:
+                        bat.fail("C03.per-operation-contract", pr[0], {"kind": "e2e", "op": name, "recursive": recursive, "problems": pr[:2]}, "InotifyEmitter.queue_events")
             # the synthetic sub-events of the table are C14's generators: their collision trees are run here as well
             import c14_battery
             n = 0
